@@ -12,6 +12,7 @@ def emit(w, src, must):
     emit_guards(w, src, must)
     emit_stun(w, src, must)
     emit_sdp(w, src, must)
+    emit_sip(w, src, must)
 
 
 def emit_timers(w, src, must):
@@ -117,4 +118,41 @@ def emit_sdp(w, src, must):
     sdisp = sd[sd.index("impl fmt::Display for SessionDescription"):sd.index("#[derive(Default)]\nstruct Parser")]
     w("Definition sdp_prints_session_direction : bool := %s." % ("true" if "self.direction" in sdisp else "false"))
     w("Definition sdp_ice_lite_flag : bool := %s." % ("true" if re.search(r'"ice-lite" => self\.ice_lite = true,\s*\n\s*"end-of-candidates"', sd) else "false"))
+    w("")
+
+
+def _class_bytes(text, fn_name, must):
+    m = must(re.search(r"fn %s\(c: char\) -> bool \{\s*lookup_table!\(c => ([^\n]*)\)\s*\}" % fn_name, text), "character class " + fn_name)
+    spec = re.sub(r"/\*.*?\*/", "", m.group(1))
+    chars = set()
+    if "alpha;" in spec:
+        chars |= set(range(65, 91)) | set(range(97, 123))
+    if "num;" in spec:
+        chars |= set(range(48, 58))
+    for lit in re.findall(r"'(\\.|[^'\\])'", spec):
+        chars.add(ord(lit[-1]))
+    return sorted(chars)
+
+
+def emit_sip(w, src, must):
+    """character classes, method names and escaping forms of sip-types the model of C01 depends on"""
+    sipuri = src("crates/sip-types/src/uri/sip.rs")
+    params = src("crates/sip-types/src/uri/params.rs")
+    parse = src("crates/sip-types/src/parse.rs")
+    w("(* crates/sip-types: character classes of the URI parsers (lookup_table!), method names, escaping forms *)")
+    for name, text, fn in (("sip_user_class", sipuri, "user"), ("sip_password_class", sipuri, "password"), ("sip_param_class", params, "param_char"),
+                           ("sip_header_class", params, "header_char"), ("sip_token_class", parse, "token")):
+        w("Definition %s : list byte := %s." % (name, blist(bytes(_class_bytes(text, fn, must)))))
+    macros = src("crates/sip-types/src/macros.rs")
+    enc = macros[macros.index("macro_rules! encode_set"):]
+    w("Definition sip_encode_set_has_percent : bool := %s." % ("true" if re.search(r"set\.add\(b'%'\)", enc) else "false"))
+    method = src("crates/sip-types/src/method.rs")
+    names = re.findall(r'^\s*"([A-Z]+)",\s+[A-Z]+;', method, re.M)
+    must(len(names) >= 14, "method table")
+    w("Definition sip_method_names : list (list byte) := [%s]." % "; ".join(blist(n.encode()) for n in names))
+    w("Definition sip_method_exact : bool := %s." % ("true" if "tag_no_case" not in method and re.search(r"\$\(\$print => Self\(Repr::\$ident\),\)\*", method) else "false"))
+    ft = src("crates/sip-types/src/header/typed/from_to.rs")
+    w("Definition sip_tag_escaped : bool := %s." % ("true" if re.search(r'";tag=\{\}",\s*percent_encode\(tag', ft) else "false"))
+    na = src("crates/sip-types/src/uri/name_addr.rs")
+    w("Definition sip_display_quoted_escaped : bool := %s." % ("true" if "parse_quoted_string" in na and re.search(r"if matches!\(c, '\"' \| '\\\\'\)", na) else "false"))
     w("")
